@@ -80,6 +80,7 @@ type Event struct {
 	Enc     string     `json:"enc"`
 	T       *enm.Tree  `json:"t"`       // rt: the tree that was encoded
 	OutOK   bool       `json:"outok"`   // rt: the encoder's output could be tokenised
+	Stable  bool       `json:"stable"`  // rt: the returned bytes were still the same after the later encoder calls of the batch
 	HasToks bool       `json:"hastoks"` // the input of the decoder as tokens is known
 	Toks    []enm.JTok `json:"toks"`
 	XToks   []enm.XTok `json:"xtoks"`
@@ -155,6 +156,7 @@ func replay(args []string) {
 	fs := flag.NewFlagSet("replay", flag.ExitOnError)
 	out := fs.String("out", "events.ndjson", "")
 	shuf := fs.Int("shuffle", 4, "also replay a shuffled copy of every n-th tree (0 = never)")
+	batch := fs.Int("batch", 4, "trees whose encodings are all produced before any of them is read")
 	fs.Parse(args)
 	oh, err := os.Create(*out)
 	if err != nil {
@@ -168,6 +170,9 @@ func replay(args []string) {
 	emit := func(e *Event) {
 		id++
 		e.ID = id
+		if e.Ev != "rt" {
+			e.Stable = true
+		}
 		if e.T == nil {
 			e.T = enm.EmptyTree
 		}
@@ -185,12 +190,45 @@ func replay(args []string) {
 		}
 	}
 	ntree, nonempty := 0, 0
+	// An encoding is a value: what an encoder returned must stay what it is while other trees are
+	// encoded.  So the three encodings of all trees of a batch are produced first, back to back,
+	// and kept exactly as returned (no copy); only then is each compared and decoded.  A copy taken
+	// right after each call tells whether the kept bytes changed in the meantime.
+	type pending struct {
+		src        string
+		t          *enm.Tree
+		enc        string
+		kept, copy []byte
+		panicked   string
+	}
+	var pend []pending
+	var pendTrees int
+	var ms schema.ModelSet
+	var items []int
+	flush := func() {
+		for _, p := range pend {
+			ev := &Event{Ev: "rt", Src: p.src, Items: items, Enc: p.enc, T: p.t}
+			if p.panicked != "" {
+				ev.Out, ev.Detail = "panic", "encoder: "+enm.Ph(p.panicked)
+				emit(ev)
+				continue
+			}
+			ev.Stable = string(p.kept) == string(p.copy)
+			ev.OutOK = tokenise(p.enc, p.kept, ev)
+			ev.HasToks = ev.OutOK
+			if !ev.OutOK {
+				ev.In = enm.Ph(string(p.kept))
+			}
+			ev.Out, ev.Tree, ev.Detail = enm.Decode(p.enc, ms, p.kept)
+			emit(ev)
+		}
+		pend, pendTrees = pend[:0], 0
+	}
 	for _, path := range fs.Args() {
-		var ms schema.ModelSet
-		var items []int
 		readLines(path, func(l *Line) {
 			switch l.Kind {
 			case "schema":
+				flush()
 				var err error
 				ms, err = enm.Compile(l.YA, l.YB)
 				if err != nil {
@@ -215,23 +253,16 @@ func replay(args []string) {
 				for _, v := range variants {
 					dn := v.t.ToDataNode()
 					for _, enc := range enm.Encs {
-						ev := &Event{Ev: "rt", Src: v.src, Items: items, Enc: enc, T: v.t}
 						b, p := enm.Encode(enc, ms, dn)
-						if p != "" {
-							ev.Out, ev.Detail = "panic", "encoder: "+enm.Ph(p)
-							emit(ev)
-							continue
-						}
-						ev.OutOK = tokenise(enc, b, ev)
-						ev.HasToks = ev.OutOK
-						if !ev.OutOK {
-							ev.In = enm.Ph(string(b))
-						}
-						ev.Out, ev.Tree, ev.Detail = enm.Decode(enc, ms, b)
-						emit(ev)
+						pend = append(pend, pending{src: v.src, t: v.t, enc: enc, kept: b, copy: append([]byte(nil), b...), panicked: p})
 					}
 				}
+				pendTrees++
+				if pendTrees >= *batch {
+					flush()
+				}
 			case "mut":
+				flush()
 				ev := &Event{Ev: "dec", Src: "mut", Items: items, Enc: l.Enc, HasToks: true, Toks: l.Toks, XToks: l.XToks}
 				var b []byte
 				if l.Enc == "xml" {
@@ -243,6 +274,7 @@ func replay(args []string) {
 				emit(ev)
 			}
 		})
+		flush()
 	}
 	w.Flush()
 	oh.Close()
@@ -447,7 +479,7 @@ func fuzzFlags(name string, args []string) (spec *string, maxlen, nrand, shard, 
 }
 
 func eventOf(sp *fuzzSpec, idx int, fc *fcase) *Event {
-	ev := &Event{Ev: "dec", ID: idx + 1, Src: fc.src, Items: sp.items, Enc: fc.enc, T: enm.EmptyTree, Tree: enm.EmptyTree,
+	ev := &Event{Ev: "dec", ID: idx + 1, Src: fc.src, Items: sp.items, Enc: fc.enc, T: enm.EmptyTree, Tree: enm.EmptyTree, Stable: true,
 		HasToks: fc.hasToks, Toks: fc.toks, XToks: fc.xtoks}
 	if !fc.hasToks {
 		ev.HasToks = tokenise(fc.enc, fc.bytes, ev)
